@@ -65,6 +65,10 @@ func c14Kinds() []reqKind {
 		// the caller allows a reply of at most 5 bytes: the HTTP handler refuses with 413 and no frame,
 		// the connection-oriented server knows no such limit and replies
 		{name: "reply-refused-for-size", frame: func(op string) frameSpec { f := echo(op); f.PayloadLimit = 5; return f }, outcome: &outcomeSpec{Kind: "return", Value: iv(9)}, expect: "refused-on-http"},
+		// the reply (3 000 bytes) does not fit the per-message server's 1 KiB output buffer: that server
+		// answers with a RESPONSE_TOO_LARGE application exception (type 100) carrying the request's op id;
+		// the other two servers know no such limit and reply
+		{name: "reply-too-large-for-the-output-buffer", frame: func(op string) frameSpec { return frameSpec{Method: "blob", MType: 1, OpID: op, Cid: "c" + op} }, outcome: &outcomeSpec{Kind: "return", Value: &idl.V{K: "bin", S: strings.Repeat("QUJD", 1000)}}, expect: "exception:100-on-bounded"},
 		{name: "oneway-ok", frame: func(op string) frameSpec { return frameSpec{Method: "fire", MType: 4, Args: args(map[string]*idl.W{"1": i32W(1)}), OpID: op, Cid: "c" + op} }, outcome: &outcomeSpec{Kind: "return"}, expect: "none"},
 	}
 }
@@ -110,7 +114,7 @@ func runC14(res *result) {
 	}
 	rec(nil)
 	for _, seq := range seqs {
-		for si, server := range []string{"simple", "http"} {
+		for si, server := range []string{"simple", "http", "bounded"} {
 			for pi, proto := range protos {
 				if !thorough && len(seq) == maxLen && (si+pi)%2 == 1 {
 					continue // quick: full-length sequences alternate server x protocol
@@ -202,7 +206,7 @@ func runC14(res *result) {
 		// walk the sequence; on the simple server a poisoning request ends what is promised
 		var replies []*replyDesc
 		for _, rp := range cr.Replies {
-			if e.server == "http" || rp.ParseErr == "" || !strings.HasPrefix(rp.ParseErr, "no frame") {
+			if e.server != "simple" || rp.ParseErr == "" || !strings.HasPrefix(rp.ParseErr, "no frame") {
 				replies = append(replies, rp)
 			}
 		}
@@ -211,9 +215,13 @@ func runC14(res *result) {
 			cur = k.name
 			opid := fmt.Sprint(100 + qi)
 			var rp *replyDesc
-			if e.server == "http" {
+			if e.server != "simple" {
+				if qi >= len(cr.Replies) {
+					fail("missing-reply", fmt.Sprintf("request %d (%s) got no reply slot; %d for the sequence", qi, k.name, len(cr.Replies)))
+					break
+				}
 				rp = cr.Replies[qi]
-				if k.expect == "refused-on-http" {
+				if k.expect == "refused-on-http" && e.server == "http" {
 					if rp.ParseErr != "no frame: HTTP413" {
 						fail("oversize-reply-not-refused", fmt.Sprintf("request %d allows 5 bytes of reply and got %q %v", qi, rp.ParseErr, rp.Name))
 					}
@@ -248,7 +256,9 @@ func runC14(res *result) {
 			}
 			okType := false
 			switch {
-			case k.expect == "reply" || k.expect == "refused-on-http":
+			case k.expect == "exception:100-on-bounded" && e.server == "bounded":
+				okType = rp.MType == 3 && rp.AppType == 100
+			case k.expect == "reply" || k.expect == "refused-on-http" || k.expect == "exception:100-on-bounded":
 				okType = rp.MType == 2
 				if okType && k.excField {
 					if _, has := rp.Tree.F["1"]; !has {
@@ -263,11 +273,11 @@ func runC14(res *result) {
 			if !okType {
 				fail("wrong-reply-kind", fmt.Sprintf("reply to request %d (%s): message type %d application exception type %d, expected %s", qi, k.name, rp.MType, rp.AppType, k.expect))
 			}
-			if e.server != "http" && k.poisons {
+			if e.server == "simple" && k.poisons {
 				break // nothing is promised for later requests on this connection
 			}
 		}
-		if e.server != "http" {
+		if e.server == "simple" {
 			// no surplus replies unless the sequence was cut at a poisoning request
 			poisoned := false
 			want := 0
